@@ -143,16 +143,16 @@ func (b *Bus) EaDump(start uint32, end uint32, data []byte) int {
 	for k := startK; k <= endK; k++ {
 		s := b.segment[k]
 		if s == nil {
-			// skip the whole segment:
-			for n := 0; a <= end && n < 16; n++ {
+			// skip the part of the range that lies in this segment:
+			for a <= end && a>>4 == k {
 				a++
 				i++
 			}
 			continue
 		}
 
-		// copy the whole segment:
-		for n := 0; a <= end && n < 16; n++ {
+		// copy the part of the range that lies in this segment:
+		for a <= end && a>>4 == k {
 			data[i] = s.Read(a)
 			a++
 			i++
